@@ -186,6 +186,11 @@ class Program:
                 want = nrm(trait_full)
                 ex = [x for x in cands if x[3] and "<" in x[3] and nrm(x[3]) == want]
                 if ex: cands = ex
+            elif len(cands) > 1 and trait_full and "<" not in trait_full:
+                # defaulted type parameter elided by the printer (`<T as Add>::add` is `Add<T>`, Rhs = Self)
+                def arg(t): return re.sub(r"\b\w+::", "", re.sub(r"\s+", "", t[t.index("<") + 1:t.rindex(">")])) if t and "<" in t else None
+                ex = [x for x in cands if arg(x[3]) in (None, sn, "Self")]
+                if ex: cands = ex
         elif inherent_only:
             cands = [x for x in cands if x[1] is None] or cands
         if not cands: return None
@@ -211,9 +216,19 @@ class Program:
         if td is not None and td.kind == "enum": return td
         return None
 
+    def _builtin_enum(self, ty, cur_crate):
+        """variant list of a std enum, unless a crate under analysis defines an enum of that name itself"""
+        sn = simple_name(ty)
+        b = rtypes.TypeDB.BUILTIN.get(sn)
+        if b is None: return None
+        td = self.types.lookup(ty, cur_crate or self.crate)
+        if td is not None and td.kind == "enum" and td.crate in getattr(self, "crates", ()) and td.name == sn: return None
+        return b
+
     def variant_index(self, ty, variant, cur_crate=None):
         sn = simple_name(ty)
-        if sn in rtypes.TypeDB.BUILTIN: return rtypes.TypeDB.BUILTIN[sn].index(variant)
+        b = self._builtin_enum(ty, cur_crate)
+        if b is not None and variant in b: return b.index(variant)
         td = self.types.lookup(ty, cur_crate or self.crate)
         if td is None or td.kind != "enum":
             raise Unsupported(f"unknown enum {ty}")
@@ -222,7 +237,8 @@ class Program:
     def variant_discr(self, ty, variant, cur_crate=None):
         """the value MIR's discriminant() yields for a variant (declared `= N` values are honoured)"""
         sn = simple_name(ty)
-        if sn in rtypes.TypeDB.BUILTIN: return rtypes.TypeDB.BUILTIN[sn].index(variant)
+        b = self._builtin_enum(ty, cur_crate)
+        if b is not None and variant in b: return b.index(variant)
         td = self.types.lookup(ty, cur_crate or self.crate)
         if td is None or td.kind != "enum":
             raise Unsupported(f"unknown enum {ty}")
